@@ -24,7 +24,7 @@ from mc.spec import XTCE_URI, build_objects, load_doc, ns_prefix_arg
 
 PROP = "C15"
 LEVEL = "model_checking"
-STYLES = ("xtce", "XTCE", "default", "none")
+STYLES = ("xtce", "XTCE", "default", "none", "xtce+extras")
 
 
 def W(defn) -> bytes:
@@ -158,7 +158,7 @@ def _task(task):
         try:
             with case_alarm(120):
                 doc = make_doc(item)
-                for style in (STYLES if (j + task["base"]) % 3 == 0 or item[0] == "trees" else (STYLES[(j + task["base"]) % 4],)) if item[0] != "extra" else (STYLES[(j + task["base"]) % 4], "xtce")[:1 + (j % 2)]:
+                for style in (STYLES if (j + task["base"]) % 3 == 0 or item[0] == "trees" else (STYLES[(j + task["base"]) % 5],)) if item[0] != "extra" else (STYLES[(j + task["base"]) % 5], "xtce")[:1 + (j % 2)]:
                     for via in ("xml", "objects"):
                         case = {"family": item[0], "item": item[1], "style": style, "via": via, "use_write_xml": (j + task["base"]) % 4 == 0}
                         try:
@@ -201,7 +201,7 @@ def emit_digests(tier):
     for i, item in enumerate(items):
         doc = make_doc(item)
         for via in ("xml", "objects"):
-            style = STYLES[i % 4]
+            style = STYLES[i % 5]
             try:
                 defn = load_doc(doc, style) if via == "xml" else build_objects(doc, style)
                 out[f"{i}:{via}:{style}"] = hashlib.sha256(W(defn)).hexdigest()
